@@ -214,6 +214,36 @@ def find_witness(neg_goal, facts, dom=4, max_atoms=7, opaque=lambda a: a.startsw
         return 'opaque'
     if len(atoms) > max_atoms:
         return 'toomany'
+    # facts not connected to the goal must still be satisfiable on their own (small, non-opaque components are
+    # checked by enumeration; others are assumed satisfiable: they come from a path the engine kept as feasible)
+    rest = list(pool)
+    while rest:
+        comp = [rest.pop(0)]
+        ca = set(comp[0].atoms())
+        grew = True
+        while grew:
+            grew = False
+            for f in list(rest):
+                if f.atoms() & ca:
+                    comp.append(f)
+                    rest.remove(f)
+                    ca |= f.atoms()
+                    grew = True
+        if not ca:
+            if any(f.const_value() is not None and f.const_value() < 0 for f in comp):
+                return None
+            continue
+        if any(opaque(a) for a in ca) or len(ca) > 5:
+            continue
+        cl = sorted(ca)
+        sat = False
+        for vals in itertools.product(range(dom + 1), repeat=len(cl)):
+            v = dict(zip(cl, vals))
+            if all(f.eval(v) >= 0 for f in comp):
+                sat = True
+                break
+        if not sat:
+            return None
     al = sorted(atoms)
     if order:
         al = order(al)
